@@ -4,7 +4,7 @@ from numbers import Number
 
 import vf
 vf.use_repo()
-from ak.ppobj import PPTable, PPEnumFieldType  # noqa: E402
+from ak.ppobj import PPTable, PPEnumFieldType, FieldType, ALIGN_CENTER  # noqa: E402
 
 FIELDS = ['a', 'b', 'st', 'd']
 ENUM_DEF = {1: "one", 2: ("two", "name_warn"), 30: "thirty", 400: ("four hundred", "name_good")}
@@ -17,8 +17,19 @@ TITLES_POOL = {
 }
 
 
-def mk_field_types():
-    return {'st': PPEnumFieldType(dict(ENUM_DEF))}
+class CenteredFieldType(FieldType):
+    """a user-defined field type (the documented way to customise cells): values are centered"""
+
+    def make_desired_cell_ch_chunks(self, value, fmt_modifier, field_palette):
+        chunks, _ = super().make_desired_cell_ch_chunks(value, fmt_modifier, field_palette)
+        return chunks, ALIGN_CENTER
+
+
+def mk_field_types(centered=None):
+    ft = {'st': PPEnumFieldType(dict(ENUM_DEF))}
+    if centered:
+        ft[centered] = CenteredFieldType()
+    return ft
 
 
 def gen_val(rng):
